@@ -139,6 +139,35 @@ CHECKS = {
         tech="exhaustive enumeration of instance shapes x attribute names, explicit-path walk as reference",
         sec="C16",
     ),
+    "C06": dict(
+        cat="exploration",
+        text="Client configurations (quick: within 2 deviations of the default; thorough: the full product of version x pretty x close_elements x FI x CLIENTUID x app id x "
+        "language x credential alphabet) x all 156 request sequences of length 0..3 over the five statement request kinds + every single-request flag/date variant + account-info, "
+        "profile and tax requests, all dry-run; the composed bytes are read by the strict reference reader and by the library and both are compared with the request expected from "
+        "the caller's arguments.",
+        note="TRNUID/NEWFILEUID checked for shape and distinctness, DTCLIENT for the call window; cross-kind order inside a message set not pinned.",
+        tech="bounded exhaustive enumeration of configurations x request sequences against a reference model of the expected request",
+        sec="C06",
+    ),
+    "C14": dict(
+        cat="model_checking",
+        text="Explicit-state search of closed systems (2 real OFXClient instances + scripted server + real cache directory): BFS over all sequences of 22 events (client, call, mode) "
+        "to depth 3 (thorough 4) for each combination of advertised-URL kind x server cookie policy x second-client kind; states de-duplicated on cookie jars, cached profiles and "
+        "server cookie flags; after every transition the HTTP exchanges of that event are checked against the model (count, method, URL, headers, anonymous vs real credentials, "
+        "exact cookie set, returned bytes).",
+        note="Only the socket is replaced (urllib http_open/https_open); the requests code path is not installed; depth-bounded.",
+        tech="explicit-state model checking: BFS over event histories on the real client, state hashing, reference model checked per transition",
+        sec="C14",
+    ),
+    "C15": dict(
+        cat="model_checking",
+        text="Four exhaustive explorations of request_profile: BFS over server-behaviour histories against a dict model of the cache (each path a model trace validated step by step); "
+        "every crash state (every prefix of the file-operation log x torn pending writes) of every cache-writing scenario followed by recovery; all interleavings within the "
+        "preemption bound of 2-3 concurrent calls at file/HTTP seams under a deterministic scheduler; client pairs against two servers in both orders.",
+        note="Process crashes only (no metadata/data reordering); thread switches at file-operation and HTTP seams only.",
+        tech="explicit-state BFS + crash-point enumeration + preemption-bounded schedule enumeration on the real code",
+        sec="C15",
+    ),
 }
 
 NA_REASON = "check not built yet in this revision of /verif (planned: see DESIGN.md section 3); nothing is claimed for it"
